@@ -34,10 +34,22 @@ PrefixCase(T, n) == [op |-> "prefixed_write", prefix |-> T.name, count |-> n, ex
                      segs |-> IF PrefixFits(T, n) THEN << Lit(LEw(n, T.w)), Blob(7, 0, n) >> ELSE <<>>]
 NoWrappedPrefix == \A i \in 1..Len(PrefixTypes) : \A n \in PrefixCounts(PrefixTypes[i]) :
                      PrefixFits(PrefixTypes[i], n) => n < (IF PrefixTypes[i].w = 1 THEN 256 ELSE IF PrefixTypes[i].w = 2 THEN 65536 ELSE 2147483647) 
+\* ---- size-prefixed container reads: a negative or unsatisfiable count is refused; otherwise prefix + count bytes are consumed ----
+\* (StreamReader.tla has the same rule on its small contents; here the stream is long enough for 2^bits + count bytes to exist,
+\*  so a reader that lets a negative count wrap into a large positive one would succeed instead of refusing)
+SignedTypes == << [name |-> "i8", w |-> 1, mod |-> 256, half |-> 128], [name |-> "i16", w |-> 2, mod |-> 65536, half |-> 32768] >>
+PrefixReadCase(T, raw, follow) ==      \* raw: the stored prefix as an unsigned number; follow: bytes after the prefix
+  LET neg == raw >= T.half
+      ok == ~neg /\ raw <= follow
+  IN [op |-> "prefixed_read", prefix |-> T.name, segs |-> << Lit(LEw(raw, T.w)), Blob(9, 0, follow) >>,
+      expect |-> IF ok THEN "ok" ELSE "refuse", count |-> IF ok THEN raw ELSE 0, consumed |-> IF ok THEN T.w + raw ELSE 0]
 Init == done = FALSE
 Next == /\ ~done /\ done' = TRUE
         /\ \A ks \in Vectors : Emit("vol_limit", ks, VolRefused(Vec(ks)))
         /\ \A ks \in Vectors : Emit("clm_limit", ks, ClmRefused(Vec(ks)))
+        /\ \A i \in 1..Len(SignedTypes) : LET T == SignedTypes[i] IN
+             \A raw \in {0, 1, T.half - 1, T.half, T.half + 1, T.mod - 2, T.mod - 1} : \A follow \in {0, raw, T.mod + 10} :
+               PrintT("S|" \o ToJson([id |-> <<"prefix-read", T.name, raw, follow>>, steps |-> << PrefixReadCase(T, raw, follow) >>]))
         /\ Assert(NoWrappedPrefix, "an accepted count would not fit its prefix")
         /\ \A i \in 1..Len(PrefixTypes) : \A n \in PrefixCounts(PrefixTypes[i]) :
              PrintT("S|" \o ToJson([id |-> <<"prefix", PrefixTypes[i].name, n>>, steps |-> << PrefixCase(PrefixTypes[i], n) >>]))
